@@ -153,7 +153,7 @@ class Sm2World:
     def scalar_arg(self, ex, ref):
         vals = slice_vals(ex, ref) if isinstance(ref, Ref) and ref.rng is not None else ex.load(ref).f
         if len(vals) != 4:
-            raise Violation("scalar_mul called with a %d-limb scalar" % len(vals))
+            raise Inconclusive("structure not recognised (no verdict): " + "scalar_mul called with a %d-limb scalar" % len(vals))
         return z3.Concat(*[self.dom.term(x) for x in reversed(vals)])
 
     def summaries(self, h=None, extra=None):
@@ -281,7 +281,7 @@ class Sm9World:
                 v = ex.load(a) if isinstance(a, Ref) else a
                 vals = v.f
             if len(vals) != 4:
-                raise Violation("scalar of %d limbs" % len(vals))
+                raise Inconclusive("structure not recognised (no verdict): " + "scalar of %d limbs" % len(vals))
             return u256_term(dom, Agg(list(vals)))
         def lg(*e):
             W.log.append(e)
